@@ -1,6 +1,6 @@
 (* Line protocol for the extracted connection model of C04 (Model/ChanPipe.v).
 
-   <mode> <look>,<sb>,<clen>,<nw> <script> <tok> <tok> ...
+   <mode> <look>,<sb>,<clen>,<nw>,<unlocked 0|1> <script> <tok> <tok> ...
 
    mode   val   every token is one VISIBLE step of the named thread; the invisible
                 steps of that thread (outbuf.get, outbuf.skip, parser work) that
@@ -146,8 +146,8 @@ let handle (words : string list) : string =
   match words with
   | mode :: ps :: script :: toks ->
       let p = match parse_params ps with
-        | [look; sb; clen; nw] ->
-            { p_look = nat_of_int look; p_sb = z_of_int sb; p_clen = nat_of_int clen;
+        | [look; sb; clen; nw; unl] ->
+            { p_look = nat_of_int look; p_sb = z_of_int sb; p_clen = nat_of_int clen; p_unlocked = (unl = 1);
               p_nw = nat_of_int nw; p_script = parse_script script }
         | _ -> failwith "bad params" in
       let st = ref init in
